@@ -23,6 +23,7 @@ structure StageCfg where
   den : Nat := 1           -- clocked: clock denominator (L for poly-fir0, 2^32 std clock / cubic, 2^96 hi-prec clock)
   step : Nat := 1          -- clocked: clock increment per output frame, in units of 1/den input frames
   poly0 : Bool := false    -- clocked: poly-fir0.h does nothing at all when `num_in == 0`
+  taps : Nat := 0          -- clocked: frames read per output (FIR length, 4 for the cubic stage); data level only
   L : Nat := 1             -- dft: up-sampling factor
   dftLen : Nat := 0        -- dft
   numTaps : Nat := 1       -- dft
